@@ -34,6 +34,23 @@ template <class T>
 struct is_move_construct_nothrow : std::integral_constant<bool, amc::is_trivially_relocatable<T>::value ||
                                                                     std::is_nothrow_move_constructible<T>::value> {};
 
+/// Move backward [first, last) to the range ending at 'dLast', whose last 'count' elements have just been constructed.
+/// They are not part of the container yet: destroy them if a move throws.
+template <class T, class SizeType>
+inline void move_backward_after_tail(T *first, T *last, T *dLast, SizeType, std::true_type) noexcept {
+  std::move_backward(first, last, dLast);
+}
+
+template <class T, class SizeType>
+inline void move_backward_after_tail(T *first, T *last, T *dLast, SizeType count, std::false_type) {
+  try {
+    std::move_backward(first, last, dLast);
+  } catch (...) {
+    amc::destroy_n(dLast, count);
+    throw;
+  }
+}
+
 /// Shift 'n' elements starting at 'first' one slot to the right
 /// Requirements: n != 0, with uninitialized memory starting at 'first + n'
 /// Warning: no destroy is called for elements which has been moved from.
@@ -41,12 +58,7 @@ template <class T, class SizeType, typename std::enable_if<!amc::is_trivially_re
 inline void shift_right(T *first, SizeType n) noexcept(is_shift_nothrow<T>::value) {
   T *last = first + n;
   amc::construct_at(last, std::move(*(last - 1)));
-  try {
-    std::move_backward(first, last - 1, last);
-  } catch (...) {
-    amc::destroy_at(last);  // it is not part of the container yet
-    throw;
-  }
+  move_backward_after_tail(first, last - 1, last, static_cast<SizeType>(1), is_shift_nothrow<T>());
 }
 
 /// Specialization for trivially relocatable types. Just use memmove here.
@@ -63,12 +75,8 @@ void shift_right(T *first, SizeType n, SizeType count) noexcept(is_shift_nothrow
   if (count < n) {
     T *last = first + n;
     amc::uninitialized_move_n(last - count, count, last);  // move last 'count' elems to uninitialized storage
-    try {
-      std::move_backward(first, last - count, last);  // move remaining 'n - count' elems to initialized storage
-    } catch (...) {
-      amc::destroy_n(last, count);  // they are not part of the container yet
-      throw;
-    }
+    // move remaining 'n - count' elems to initialized storage
+    move_backward_after_tail(first, last - count, last, count, is_shift_nothrow<T>());
   } else {
     // no overlap, we shift all elements to uninitialized memory
     amc::uninitialized_move_n(first, n, first + count);
